@@ -13,12 +13,12 @@ ID = "C05"
 RULE = ("E-INPUT: every acyclic instance with n<=3 variables (each ordered pair absent / gap 0 / gap 2 / duplicated, every "
         "relabelling, desired in {0,1,3}^n, 4 weight x 4 scale vectors; quick: 3 of the 6 relabellings) and n=4 (pairs absent/0/2, desired {0,1,3}^4, "
         "relabellings; thorough: all weight/scale vectors, n=5 over {0,2}^5); every multiset of <=3 (thorough <=4) directed "
-        "edges over 3 (4) variables incl. contradictory cycles; thorough: families up to 60 variables; re-solve path (solve, setDesiredPositions, solve) for every pair of desired vectors at n=3 ({0,1,3}) and n=4 ({0,2}). Real "
+        "edges over 3 (4) variables incl. contradictory cycles; thorough: families up to 60 variables; re-solve path (solve, setDesiredPositions, solve - on the same solver and on a new Solver built over the same Variable and Constraint objects) for every pair of desired vectors at n=3 ({0,1,3}) and n=4 ({0,2}). Real "
         "vpsc.Solver.solve(); feasibility, cost consistency, exact dual certificate; R-QP confirms every rejection with "
         "<=8 constraints and cross-checks every 50th instance. Non-trivial: optimum != desired (a merge was needed).")
 ASSUMPTIONS = ["equality constraints and setStartingPositions are outside the property; re-solving after setDesiredPositions is driven",
                "tolerances: feasibility 1e-6 relative, optimality 1e-4 absolute + 1e-6 relative (the solver's own convergence threshold)"]
-REQUIRED_COUNTERS = ("acyclic_instances", "cyclic_instances", "cyclic_flagged", "moved_instances", "resolve_instances")
+REQUIRED_COUNTERS = ("acyclic_instances", "cyclic_instances", "cyclic_flagged", "moved_instances", "resolve_instances", "resolve_with_fresh_solver")
 
 W_VEC = {
     "unit": lambda n: [1] * n,
@@ -79,14 +79,17 @@ def run_impl(d, w, s, cons, budget=5.0):
     return [v.position() for v in vs], cost, [bool(c.unsatisfiable) for c in cs]
 
 
-def run_resolve(d1, d2, w, s, cons, budget=5.0):
-    """solve(), then setDesiredPositions(d2), then solve() again on the SAME solver."""
+def run_resolve(d1, d2, w, s, cons, budget=5.0, fresh=False):
+    """solve(), then setDesiredPositions(d2), then solve() again on the SAME solver - or (fresh) on a NEW Solver built over
+    the same Variable and Constraint objects (the constructor takes any variables and constraints)."""
     from labella import vpsc
     vs = [vpsc.Variable(float(di), float(wi), float(si)) for di, wi, si in zip(d1, w, s)]
     cs = [vpsc.Constraint(vs[l], vs[r], float(g)) for l, r, g in cons]
     with horizon(budget):
         solver = vpsc.Solver(vs, cs)
         solver.solve()
+        if fresh:
+            solver = vpsc.Solver(vs, cs)
         solver.setDesiredPositions([float(v) for v in d2])
         cost = solver.solve()
     return [v.position() for v in vs], cost, [bool(c.unsatisfiable) for c in cs]
@@ -119,7 +122,7 @@ def judge(inst, acc=None, force_qp=False):
     n = len(d)
     try:
         if "d_first" in inst:  # re-solve path: the verdict is about the second desired vector
-            x, cost, uns = run_resolve(inst["d_first"], d, w, s, cons)
+            x, cost, uns = run_resolve(inst["d_first"], d, w, s, cons, fresh=bool(inst.get("fresh_solver")))
         else:
             x, cost, uns = run_impl(d, w, s, cons)
     except Hang as e:
@@ -309,13 +312,16 @@ def run_shard(shard):
             acc.states += 1
             for d1 in itertools.product(shard["D"], repeat=n):
                 for d2 in itertools.product(shard["D"], repeat=n):
-                    inst = {"d": list(d2), "d_first": list(d1), "w": [1] * n, "s": [1] * n, "cons": cons}
-                    bad = judge(inst, acc)
-                    acc.evals += 1
-                    acc.trans += 1
-                    acc.counters["resolve_instances"] += 1
-                    if bad:
-                        acc.violation(inst, bad[0], bad[1], order=(20 + n, len(cons), ci))
+                    for fresh in ((False, True) if n <= 3 else (bool((ci + sum(d1)) % 2),)):
+                        inst = {"d": list(d2), "d_first": list(d1), "w": [1] * n, "s": [1] * n, "cons": cons, "fresh_solver": fresh}
+                        bad = judge(inst, acc)
+                        acc.evals += 1
+                        acc.trans += 1
+                        acc.counters["resolve_instances"] += 1
+                        if fresh:
+                            acc.counters["resolve_with_fresh_solver"] += 1
+                        if bad:
+                            acc.violation(inst, bad[0], bad[1], order=(20 + n, len(cons), ci))
         acc.sample(inst)
     elif shard["kind"] == "cyc":
         n = shard["n"]
